@@ -15,6 +15,15 @@ ApproxIsMaxLE == Ascending(keys) => LET r == ApproxRow(v, keys) IN
                    IF r = NA THEN keys[1] > v ELSE keys[r] <= v /\ (r = Len(keys) \/ keys[r + 1] > v)
 ApproxAboveAll == (Ascending(keys) /\ v >= keys[Len(keys)]) => ApproxRow(v, keys) = Len(keys)
 ApproxExtendsExact == (Ascending(keys) /\ ExactLast(v, keys) # NA) => ApproxRow(v, keys) = ExactLast(v, keys)
+\* blanks in the key range are never keys: the answers are those of the column with the blanks removed, at shifted positions
+Squeeze(ks) == LET RECURSIVE F(_)
+                   F(i) == IF i > Len(ks) THEN <<>> ELSE (IF IsKeyB(ks[i]) THEN <<ks[i]>> ELSE <<>>) \o F(i + 1)
+               IN F(1)
+BlanksAreNotKeys == LET kb == [i \in 1..Len(keys) |-> IF i = 2 THEN 0 ELSE keys[i]] IN
+    /\ (ExactFirstB(v, kb) = NA) = (ExactFirst(v, Squeeze(kb)) = NA)
+    /\ (ExactFirstB(v, kb) # NA => kb[ExactFirstB(v, kb)] = v)
+    /\ (AscendingB(kb) /\ ApproxRowB(v, kb) \notin {NA, OOS}) => (kb[ApproxRowB(v, kb)] = Squeeze(kb)[ApproxRow(v, Squeeze(kb))])
+    /\ (AscendingB(kb)) => ((ApproxRowB(v, kb) = NA) = (Squeeze(kb) = <<>> \/ ApproxRow(v, Squeeze(kb)) = NA))
 IndexMatchPartner == LET r == ExactFirst(v, keys) IN r # NA => Index(Len(keys), 3, r, 2) = Cell(r, 2) /\ Index(Len(keys), 3, Len(keys) + 1, 1) = REF
 \* letters: ColLetters is the inverse of the positional value for every column up to XFD
 RECURSIVE LetterIdx(_)
